@@ -1,0 +1,66 @@
+//go:build verif
+
+// Machine-checked contracts for package tester (read by /verif/govc; comments only).
+//
+// C10: every test case that is recorded as failed (not skipped, Error != nil) has been counted on
+// the shared counter (ghost flag g_failed, set by Counter.Fail and by nothing else), so that the
+// command's exit code - computed from the counter - is non-zero whenever a test failed.
+//
+// The runner executes the body of (*Tester).run in a goroutine and collects its result over
+// channels (go / chan / select are outside the modelled subset). The goroutine body, the closure
+// (*Tester).run$1, is verified as a function; (*Tester).run itself carries an ASSUMED contract that
+// says: it returns the cases its goroutine computed, or an error.
+
+package tester
+
+import (
+	"github.com/ysugimoto/falco/v2/tester/shared"
+)
+
+var _ = shared.NewCounter
+
+// a recorded failure has been counted
+//@ pred counted(cs []*TestCase, c *shared.Counter) = forall k int :: 0 <= k && k < len(cs) ==> (cs[k] != nil && !cs[k].Skip && cs[k].Error != nil ==> c.g_failed)
+
+//@ func New [C10]
+//@   requires c != nil
+//@   ensures [tester-has-a-counter] result != nil && fresh(result) && result.counter != nil
+
+//@ func (*TestResult).IsPassed [C10]
+//@   requires t != nil
+//@   pure
+//@   ensures [passed-iff-no-error] result == (forall k int :: 0 <= k && k < len(t.Cases) ==> t.Cases[k].Error == nil)
+//@   loop 1 invariant forall k int :: 0 <= k && k <= rangeindex ==> t.Cases[k].Error == nil
+
+//@ func (*Tester).runDescribedTests [C10]
+//@   requires t != nil && t.counter != nil
+//@   preserves F:tester.TestCase. E:*tester.TestCase F:tester.Tester.counter
+//@   ensures [failures-counted] counted(result, t.counter)
+//@   ensures [counter-kept] t.counter == old(t.counter) && (old(t.counter.g_failed) ==> t.counter.g_failed)
+//@   loop * invariant t.counter == old(t.counter) && (old(t.counter.g_failed) ==> t.counter.g_failed)
+//@   loop * invariant counted(cases, t.counter)
+//@   loop * invariant cases == nil || fresh(cases)
+//@   loop * invariant kept("E:*tester.TestCase")
+
+//@ func (*Tester).run$1 [C10]
+//@   requires t != nil && t.counter != nil
+//@   preserves F:tester.TestCase. E:*tester.TestCase F:tester.Tester.counter
+//@   ensures [failures-counted] counted($cases, t.counter)
+//@   ensures [counter-kept] t.counter == old(t.counter) && (old(t.counter.g_failed) ==> t.counter.g_failed)
+//@   loop * invariant t.counter == old(t.counter) && (old(t.counter.g_failed) ==> t.counter.g_failed)
+//@   loop * invariant counted(cases, t.counter)
+//@   loop * invariant cases == nil || fresh(cases)
+//@   loop * invariant kept("E:*tester.TestCase")
+
+// ASSUMED (goroutine + channels + select): run hands back what its goroutine body computed.
+//@ extern (*github.com/ysugimoto/falco/v2/tester.Tester).run [C10]
+//@   requires t != nil && t.counter != nil
+//@   preserves F:tester.TestCase. E:*tester.TestCase F:tester.Tester.counter F:tester.TestResult. E:*tester.TestResult
+//@   ensures err == nil ==> result != nil && counted(result.Cases, t.counter)
+//@   ensures t.counter == old(t.counter) && (old(t.counter.g_failed) ==> t.counter.g_failed)
+
+//@ func (*Tester).Run [C10]
+//@   requires t != nil && t.counter != nil
+//@   ensures [factory-reports-the-counter] err == nil ==> result != nil && result.Statistics == old(t.counter)
+//@   ensures [failures-counted] err == nil ==> (forall j int :: 0 <= j && j < len(result.Results) ==> result.Results[j] != nil && counted(result.Results[j].Cases, result.Statistics))
+//@   loop 1 invariant t.counter == old(t.counter) && (forall j int :: 0 <= j && j < len(results) ==> results[j] != nil && counted(results[j].Cases, t.counter))
